@@ -51,7 +51,7 @@ def scope_pairing(chk: Check) -> None:
             if isinstance(c.func, ast.Attribute) and c.func.attr in ('append', 'pop', 'insert', 'remove', 'clear', 'extend') and 'PROCESS_STACK.get()' == norm(c.func.value):
                 chk.ob('OWN-process-stack', f, False, 'the list held by the context variable is mutated in place: other tasks sharing it (the default [] is one object) see the change',
                        node=c, kind='in-place-mutation')
-    chk.floor('OWN-process-stack', n, 2)
+    chk.floor('OWN-process-stack', n, 1)
     chk.ob('OWN-process-stack', ps, ps.has_decorator('contextmanager'), '_process_scope is a context manager', kind='contextmanager')
     cfg = cfg_of(ps)
     # push: copy, append self, set -- before the yield
@@ -114,6 +114,7 @@ def scope_reachability(chk: Check) -> None:
             continue
         unscoped: Dict[str, str] = {}
         scoped = 0
+        skipped = 0
         for call, t in usites:
             n += 1
             for o in esc.trace(f, call, stop=stop, containers=False):
@@ -124,10 +125,12 @@ def scope_reachability(chk: Check) -> None:
                     if o.root == 'public-entry' and (root_f.has_decorator('protected') or root_f.name == 'run' or root_f.name.startswith('on_')
                                                       or root_f.name in ('enter', 'exit', 'do_enter', 'do_exit', 'execute') and root_f.cls is not None
                                                       and root_f.cls.qualname != 'processes.Process'):
+                        skipped += 1
                         continue  # step functions / hooks / @protected methods are not entry points: only the process's own code calls them
                     if o.root == 'orphan':
                         continue
                     unscoped.setdefault(f'{root_f.short} ({o.root})', o.chain())
+        chk.need(scoped > 0 or bool(unscoped) or skipped > 0, f'no call chain at all reaches the user code run by {q}: the call graph lost it, the scope rule would pass vacuously')
         ok = not unscoped
         chk.ob('SCOPE-reachability', f, ok,
                f'{what}: ' + ('every call chain reaching this user code passes "with self._process_scope()"' if ok else
